@@ -184,6 +184,12 @@ def _run(cfg):
             return rnd.choice([0.0, 0.5, 0.5, 1.0])
         if pat == "const":
             return 0.25
+        if pat == "negrun":       # negative rewards with runs of exact zeros: a score that is exactly 0 and the best (a value mistaken for "empty")
+            st = reward.__dict__.setdefault("run", [0, False])
+            if st[0] <= 0:
+                st[0], st[1] = rnd.randint(5, 45), not st[1]
+            st[0] -= 1
+            return 0.0 if st[1] else -rnd.randint(1, 2 * RU) / RU
         if pat == "decay":        # rewards fall with time: an early validation outscores every later one of the same point
             reward.t = getattr(reward, "t", 0) + 1
             return round((1.0 - reward.t / float(T + 1)) * 2 * RU) / RU
